@@ -97,7 +97,7 @@ SPECS = {
     "C07": S(profiles=[("faults", 0.5), ("gfaults", 0.2), ("dfaults", 0.3)], projection="PExec",
              chk="fun c obs => chk_C07 (cs_cfg c) (cs_hist c) obs ++ chk_prov (cs_beh c) (cs_hist c) obs",
              rule="non-trivial: some user function failed (error or panic) and a later Invoke demanded it again"),
-    "C08": S(profiles=[("trees", 1.0)], projection="PExec",
+    "C08": S(profiles=[("trees", 0.7), ("gaps", 0.3)], projection="PExec",
              chk="fun c obs => chk_C08 (cs_beh c) (cs_hist c) obs ++ walk (fun r log o ob => chk_missing_op r log o ob) 0 reg0 [] (cs_hist c) obs",
              rule="non-trivial: >=3 scopes and some Invoke from a non-root scope executed a constructor"),
     "C09": S(profiles=[("keys", 1.0)], projection="PExec",
